@@ -747,7 +747,7 @@ trunc_domain(void) {
       uint64_t idx, oc = 0;
       fail_t f, f2;
       char js[160];
-      if (!drv.thorough && !offset_is_boundary(F, cut, 7))
+      if (!drv.thorough && !offset_is_boundary(F, cut, 13))
         continue;
       idx = g_idx++;
       if (!drv_mine(idx))
@@ -786,7 +786,7 @@ alt_domain(void) {
     size_t off;
     vfs_release();
     for (off = 0; off < F->bytes.n && !stopped; off++) {
-      if (!drv.thorough && !offset_is_boundary(F, off, 101))
+      if (!drv.thorough && !offset_is_boundary(F, off, 211))
         continue;
       for (kind = 0; kind < ALT_NKINDS; kind++) {
         uint64_t idx = g_idx++, oc = 0;
@@ -840,13 +840,13 @@ static const size_t w1_starts[33] = {0, 1, 2, 3, 4, 5, 6, 7, 8, 9, 10, 11, 12, 1
 static int
 quick_len(size_t len) {
   size_t k;
-  if (len <= 1100 || len + 40 >= MAXLEN || len % 251 == 0)
+  if (len <= 600 || len + 40 >= MAXLEN || len % 509 == 0)
     return 1;
   for (k = 1; k <= 3; k++) {
     size_t a = k * 32768, b = k * 32761;
-    if (len + 300 >= a && len <= a + 300)
+    if (len + 160 >= a && len <= a + 160)
       return 1;
-    if (len + 64 >= b && len <= b + 64)
+    if (len + 48 >= b && len <= b + 48)
       return 1;
   }
   return 0;
@@ -1058,12 +1058,12 @@ main(int argc, char **argv) {
     replay(drv.replay);
   else {
     if (!drv.thorough) {
-      drv_note("quick tier subsets: w1 = lengths {0..1100, within 300 of k*32768, within 64 of k*32761 (k=1..3), multiples of "
-               "251, 98280..98320} x all 33 start offsets; wo = every start offset 0..32767 x lengths {0,1,7,8} and start "
+      drv_note("quick tier subsets: w1 = lengths {0..600, within 160 of k*32768, within 48 of k*32761 (k=1..3), multiples of "
+               "509, 98280..98320} x all 33 start offsets; wo = every start offset 0..32767 x lengths {0,1,7,8} and start "
                "offsets {0..40, 32728..32767, multiples of 257} x lengths {32761,32768}; seq = all sequences of <=3 records "
                "over the 20 lengths plus all of 4 over {0,1,32754,32755,32761,65529}; trunc/alt = every offset of files <= "
                "5000 bytes, else offsets within [-3,+10] of a fragment header, within 12 of a block boundary or of the end, "
-               "and every 7th (cuts) / 101st (alterations); crc = full domain");
+               "and every 13th (cuts) / 211th (alterations); crc = full domain");
     }
     /* CRC first: phase 0 runs before anything called ldb_crc32c_init() (portable table path) */
     crc_domain(0);
